@@ -271,6 +271,93 @@ func runLayerVerify(e *env, lc layerCase) (engine, mob string, herr error) {
 	return engine, mob, nil
 }
 
+// swapTx lets one mobile.Reader be presented with a fresh chip per call.
+type swapTx struct{ cur mobile.Transceiver }
+
+func (s *swapTx) Transceive(cla, ins, p1, p2 int, data []byte, le int, enc []byte) []byte {
+	return s.cur.Transceive(cla, ins, p1, p2, data, le, enc)
+}
+
+func mobileObs(doc *mobile.Document, rerr error) string {
+	var d *document.DocumentEx
+	n := "apdus=nil"
+	if doc != nil {
+		d = mobile.VerifDocumentEx(doc)
+		if js, jerr := doc.ApduLogJson(); jerr == nil {
+			// (the log carries timings: only the number of entries is compared)
+			var entries []json.RawMessage
+			var wrap map[string]json.RawMessage
+			if json.Unmarshal(js, &entries) == nil {
+				n = fmt.Sprintf("apdus=%d", len(entries))
+			} else if json.Unmarshal(js, &wrap) == nil {
+				for _, v := range wrap {
+					if json.Unmarshal(v, &entries) == nil {
+						n = fmt.Sprintf("apdus=%d", len(entries))
+					}
+				}
+			}
+		}
+	}
+	return obsAll(d, rerr) + " " + n
+}
+
+// runLayerReuse: ONE mobile.Reader serves two (three) reads, each of a freshly presented chip. Every call must
+// return what a lone call on a fresh Reader returns for that chip, and a Document already handed out must not
+// change when the Reader is used again.
+func runLayerReuse(e *env, lc layerCase) (lone, reused string, herr error) {
+	cfg := layerConfig(e, lc.Chip)
+	read := func(r *mobile.Reader, sw *swapTx, p *perso.Perso) (*mobile.Document, string, error) {
+		sw.cur = p.Chip
+		pw, err := mobile.NewPasswordMrz(p.Zone)
+		if err != nil {
+			return nil, "", err
+		}
+		e.resetExecution()
+		e.seqThread = 0
+		var doc *mobile.Document
+		o := guard("mobile", func() string {
+			var rerr error
+			doc, rerr = r.ReadDocument(pw, nil, nil)
+			return mobileObs(doc, rerr)
+		})() + " " + chipDigest(p)
+		return doc, o, nil
+	}
+	mk := func() (*mobile.Reader, *swapTx) {
+		sw := &swapTx{}
+		r := mobile.NewReader(nil, sw)
+		if lc.MaxLe > 0 {
+			r.SetApduMaxLe(lc.MaxLe)
+		}
+		if lc.SkipImages {
+			r.SkipImages()
+		}
+		return r, sw
+	}
+	r0, sw0 := mk()
+	_, lone, herr = read(r0, sw0, perso.Build(cfg))
+	if herr != nil {
+		return "", "", herr
+	}
+	r, sw := mk()
+	doc1, o1, _ := read(r, sw, perso.Build(cfg))
+	_, o2, _ := read(r, sw, perso.Build(cfg))
+	_, o3, _ := read(r, sw, perso.Build(cfg))
+	after := mobileObs(doc1, nil)
+	e.seqThread = -1
+	reused = lone
+	switch {
+	case o1 != lone:
+		reused = "call 1: " + o1
+	case o2 != lone:
+		reused = "call 2: " + o2
+	case o3 != lone:
+		reused = "call 3: " + o3
+	case !strings.HasPrefix(o1, after):
+		reused = "the Document returned by call 1 changed after later calls: " + after
+	}
+	return lone, reused, nil
+}
+
 func layerCases(thorough bool) []layerCase {
 	var out []layerCase
 	les := []int{0, 64, 231}
@@ -294,6 +381,13 @@ func layerCases(thorough bool) []layerCase {
 			out = append(out, layerCase{Kind: "verify", Blob: b, VChal: vc})
 		}
 	}
+	for _, chip := range []string{"bac", "pace+bac", "cam"} {
+		for _, le := range []int{0, 64} {
+			for _, si := range []bool{false, true} {
+				out = append(out, layerCase{Kind: "reuse", Chip: chip, Password: "mrz", MaxLe: le, SkipImages: si})
+			}
+		}
+	}
 	return out
 }
 
@@ -301,6 +395,8 @@ func runLayer(e *env, lc layerCase) (key, what, obs string, herr error) {
 	var a, b string
 	if lc.Kind == "verify" {
 		a, b, herr = runLayerVerify(e, lc)
+	} else if lc.Kind == "reuse" {
+		a, b, herr = runLayerReuse(e, lc)
 	} else {
 		a, b, herr = runLayerRead(e, lc)
 	}
@@ -309,6 +405,9 @@ func runLayer(e *env, lc layerCase) (key, what, obs string, herr error) {
 	}
 	if a != b {
 		k := "L0/mobile-binding-differs-from-engine/" + lc.Kind
+		if lc.Kind == "reuse" {
+			k = "L0/reused-mobile-reader-differs-from-lone-call"
+		}
 		return k, fmt.Sprintf("configuration %+v: the mobile binding and the engine object it wraps behave differently\n   engine: %s\n   mobile: %s", lc, a, b), b, nil
 	}
 	return "", "", a, nil
@@ -317,7 +416,7 @@ func runLayer(e *env, lc layerCase) (key, what, obs string, herr error) {
 func layerSection(c *vc.Ctx, e *env) {
 	sec := "L0 lone calls: mobile bindings vs engine objects"
 	cases := layerCases(c.Thorough())
-	c.SecBound(sec, fmt.Sprintf("%d configurations, no concurrency: chips {BAC, PACE-GM+BAC+CA, PACE-CAM, PACE by CAN} x password {MRZ, three fields, CAN} x SetApduMaxLe x SkipPace x SkipImages x WithAAChallenge (caller buffer recycled afterwards), mobile.Reader vs reader.Reader; blobs {genuine, nonce changed, garbage} x verifier challenge {none, matching, other}, mobile.Verifier vs verifier.Verifier. Observations compared: error, files, verdicts, session JSON, exchange count, hash of the exact command stream the chip received, challenges signed", len(cases)))
+	c.SecBound(sec, fmt.Sprintf("%d configurations, no concurrency: chips {BAC, PACE-GM+BAC+CA, PACE-CAM, PACE by CAN} x password {MRZ, three fields, CAN} x SetApduMaxLe x SkipPace x SkipImages x WithAAChallenge (caller buffer recycled afterwards), mobile.Reader vs reader.Reader; blobs {genuine, nonce changed, garbage} x verifier challenge {none, matching, other}, mobile.Verifier vs verifier.Verifier; 12 reuse cases: three reads of freshly presented chips through ONE mobile.Reader, each equal to a lone call, earlier Documents unchanged. Observations compared: error, files, verdicts, session JSON, exchange count, hash of the exact command stream the chip received, challenges signed", len(cases)))
 	for _, lc := range cases {
 		if !c.Mine() {
 			continue
